@@ -1,10 +1,10 @@
 #!/bin/sh
 # Runs every seeded change in /verif/seeded against the quick check of its property, each in its own
 # scratch worktree of /repo (GOTRANX_REPO points the check at it); writes seeded/<id>/detection.txt.
-# usage: seed_matrix.sh [parallel jobs]
+# usage: seed_matrix.sh [parallel jobs]   (SEED_MATRIX_ONLY=<regex> restricts the run to matching directories, SEED_MATRIX_SEED=<n> sets the seed)
 J=${1:-4}
 mkdir -p /tmp/seedrun
-for d in /verif/seeded/*/; do echo "$d"; done | xargs -P "$J" -I{} sh -c '
+for d in /verif/seeded/*/; do echo "$d"; done | grep -E "${SEED_MATRIX_ONLY:-.}" | xargs -P "$J" -I{} sh -c '
 d="{}"; d=${d%/}; name=$(basename "$d"); pid=${name%%-*}; wt=/tmp/seedrun/$name
 rm -rf "$wt"; git -C /repo worktree prune 2>/dev/null
 git -C /repo worktree add -q --detach "$wt" HEAD || { echo "$name WORKTREE-FAILED"; exit 0; }
